@@ -1,0 +1,127 @@
+//go:build verif
+
+package v1alpha1
+
+// Contracts read by the verification engine in /verif (govc). Comment-only file.
+//
+//@ func NewInt32
+//@   modifies nothing
+//@   ensures fresh(result) && *result == i
+//@ func NewBool
+//@   modifies nothing
+//@   ensures fresh(result) && *result == b
+//@
+//@ func IsDefaultedExtendedDaemonSetSpecStrategyRollingUpdate
+//@   transparent
+//@   requires rollingupdate != nil
+//@   ensures [C16] result <==> rollingupdate.MaxUnavailable != nil && rollingupdate.MaxParallelPodCreation != nil
+//@             && rollingupdate.MaxPodSchedulerFailure != nil && rollingupdate.SlowStartIntervalDuration != nil
+//@             && rollingupdate.SlowStartAdditiveIncrease != nil
+//@ func IsDefaultedExtendedDaemonSetSpecStrategyCanary
+//@   transparent
+//@   requires canary != nil
+//@   ensures [C16] fields-the-reconcilers-dereference: result ==> canary.Replicas != nil && canary.ValidationMode != "" && canary.NodeSelector != nil
+//@             && canary.AutoPause != nil && canary.AutoPause.Enabled != nil && canary.AutoPause.MaxRestarts != nil
+//@             && canary.AutoFail != nil && canary.AutoFail.Enabled != nil && canary.AutoFail.MaxRestarts != nil
+//@             && (canary.ValidationMode == "auto" ==> canary.Duration != nil)
+//@ func IsDefaultedExtendedDaemonSet
+//@   transparent
+//@   requires dd != nil
+//@   ensures [C16] result ==> IsDefaultedExtendedDaemonSetSpecStrategyRollingUpdate(&dd.Spec.Strategy.RollingUpdate)
+//@             && (dd.Spec.Strategy.Canary != nil ==> IsDefaultedExtendedDaemonSetSpecStrategyCanary(dd.Spec.Strategy.Canary))
+//@             && dd.Spec.Strategy.ReconcileFrequency != nil && dd.Spec.Template.ObjectMeta.Name == ""
+//@
+//@ func DefaultExtendedDaemonSetSpecStrategyRollingUpdate
+//@   requires rollingupdate != nil
+//@   modifies *rollingupdate
+//@   ensures result == rollingupdate
+//@   ensures [C16] recognised: IsDefaultedExtendedDaemonSetSpecStrategyRollingUpdate(rollingupdate)
+//@   ensures [C16] keeps-user-values: (old(rollingupdate.MaxUnavailable) != nil ==> rollingupdate.MaxUnavailable == old(rollingupdate.MaxUnavailable))
+//@             && (old(rollingupdate.MaxParallelPodCreation) != nil ==> rollingupdate.MaxParallelPodCreation == old(rollingupdate.MaxParallelPodCreation))
+//@             && (old(rollingupdate.MaxPodSchedulerFailure) != nil ==> rollingupdate.MaxPodSchedulerFailure == old(rollingupdate.MaxPodSchedulerFailure))
+//@             && (old(rollingupdate.SlowStartIntervalDuration) != nil ==> rollingupdate.SlowStartIntervalDuration == old(rollingupdate.SlowStartIntervalDuration))
+//@             && (old(rollingupdate.SlowStartAdditiveIncrease) != nil ==> rollingupdate.SlowStartAdditiveIncrease == old(rollingupdate.SlowStartAdditiveIncrease))
+//@   ensures [C16] documented-defaults: (old(rollingupdate.MaxUnavailable) == nil ==> rollingupdate.MaxUnavailable.Type == 0 && rollingupdate.MaxUnavailable.IntVal == 1)
+//@             && (old(rollingupdate.MaxParallelPodCreation) == nil ==> *rollingupdate.MaxParallelPodCreation == 250)
+//@             && (old(rollingupdate.MaxPodSchedulerFailure) == nil ==> rollingupdate.MaxPodSchedulerFailure.Type == 0 && rollingupdate.MaxPodSchedulerFailure.IntVal == 0)
+//@             && (old(rollingupdate.SlowStartIntervalDuration) == nil ==> rollingupdate.SlowStartIntervalDuration.Duration == 60000000000)
+//@             && (old(rollingupdate.SlowStartAdditiveIncrease) == nil ==> rollingupdate.SlowStartAdditiveIncrease.Type == 0 && rollingupdate.SlowStartAdditiveIncrease.IntVal == 1)
+//@   ensures [C16] idempotent: old(IsDefaultedExtendedDaemonSetSpecStrategyRollingUpdate(rollingupdate)) ==> unchanged(*rollingupdate)
+//@
+//@ func DefaultExtendedDaemonSetSpecStrategyCanaryAutoPause
+//@   requires a != nil
+//@   modifies *a
+//@   ensures result == a
+//@   ensures [C16] recognised: a.Enabled != nil && a.MaxRestarts != nil
+//@   ensures [C16] keeps-user-values: (old(a.Enabled) != nil ==> a.Enabled == old(a.Enabled)) && (old(a.MaxRestarts) != nil ==> a.MaxRestarts == old(a.MaxRestarts))
+//@             && a.MaxSlowStartDuration == old(a.MaxSlowStartDuration)
+//@   ensures [C16] documented-defaults: (old(a.Enabled) == nil ==> *a.Enabled) && (old(a.MaxRestarts) == nil ==> *a.MaxRestarts == 2)
+//@ func DefaultExtendedDaemonSetSpecStrategyCanaryAutoFail
+//@   requires a != nil
+//@   modifies *a
+//@   ensures result == a
+//@   ensures [C16] recognised: a.Enabled != nil && a.MaxRestarts != nil
+//@   ensures [C16] keeps-user-values: (old(a.Enabled) != nil ==> a.Enabled == old(a.Enabled)) && (old(a.MaxRestarts) != nil ==> a.MaxRestarts == old(a.MaxRestarts))
+//@             && a.MaxRestartsDuration == old(a.MaxRestartsDuration) && a.CanaryTimeout == old(a.CanaryTimeout)
+//@   ensures [C16] documented-defaults: (old(a.Enabled) == nil ==> *a.Enabled) && (old(a.MaxRestarts) == nil ==> *a.MaxRestarts == 5)
+//@
+//@ spec fn fullyDefaultedCanary(c *ExtendedDaemonSetSpecStrategyCanary) bool =
+//@     IsDefaultedExtendedDaemonSetSpecStrategyCanary(c) && (c.ValidationMode == "auto" ==> c.NoRestartsDuration != nil)
+//@
+//@ func DefaultExtendedDaemonSetSpecStrategyCanary
+//@   requires c != nil
+//@   requires defaultValidationMode == "auto" || defaultValidationMode == "manual"
+//@   modifies *c, *c.AutoPause, *c.AutoFail
+//@   ensures result == c
+//@   ensures [C16] recognised: fullyDefaultedCanary(c)
+//@   ensures [C16] keeps-user-values: (old(c.Replicas) != nil ==> c.Replicas == old(c.Replicas))
+//@             && (old(c.Duration) != nil ==> c.Duration == old(c.Duration))
+//@             && (old(c.NodeSelector) != nil ==> c.NodeSelector == old(c.NodeSelector))
+//@             && (old(c.AutoPause) != nil ==> c.AutoPause == old(c.AutoPause))
+//@             && (old(c.AutoFail) != nil ==> c.AutoFail == old(c.AutoFail))
+//@             && (old(c.NoRestartsDuration) != nil ==> c.NoRestartsDuration == old(c.NoRestartsDuration))
+//@             && (old(c.ValidationMode) != "" ==> c.ValidationMode == old(c.ValidationMode))
+//@             && c.NodeAntiAffinityKeys == old(c.NodeAntiAffinityKeys)
+//@   ensures [C16] documented-defaults: (old(c.ValidationMode) == "" ==> c.ValidationMode == defaultValidationMode)
+//@             && (old(c.Replicas) == nil ==> c.Replicas.Type == 0 && c.Replicas.IntVal == 1)
+//@             && (old(c.Duration) == nil && c.ValidationMode == "auto" ==> c.Duration.Duration == 600000000000)
+//@             && (old(c.Duration) == nil && c.ValidationMode != "auto" ==> c.Duration == nil)
+//@             && (old(c.NoRestartsDuration) == nil && c.ValidationMode == "auto" ==> c.NoRestartsDuration.Duration == 300000000000)
+//@             && (old(c.NoRestartsDuration) == nil && c.ValidationMode != "auto" ==> c.NoRestartsDuration == nil)
+//@   ensures [C16] idempotent: old(fullyDefaultedCanary(c)) ==> unchanged(*c) && unchanged(*c.AutoPause) && unchanged(*c.AutoFail)
+//@
+//@ spec fn fullyDefaultedSpec(spec *ExtendedDaemonSetSpec) bool =
+//@     IsDefaultedExtendedDaemonSetSpecStrategyRollingUpdate(&spec.Strategy.RollingUpdate)
+//@     && (spec.Strategy.Canary != nil ==> fullyDefaultedCanary(spec.Strategy.Canary))
+//@     && spec.Strategy.ReconcileFrequency != nil && spec.Template.ObjectMeta.Name == ""
+//@
+//@ func DefaultExtendedDaemonSetSpec
+//@   requires spec != nil
+//@   requires defaultValidationMode == "auto" || defaultValidationMode == "manual"
+//@   modifies *spec, *spec.Strategy.Canary, *spec.Strategy.Canary.AutoPause, *spec.Strategy.Canary.AutoFail
+//@   ensures result == spec
+//@   ensures [C16] recognised: fullyDefaultedSpec(spec)
+//@   ensures [C16] template-name-cleared: spec.Template.ObjectMeta.Name == ""
+//@   ensures [C16] keeps-user-values: spec.Selector == old(spec.Selector) && spec.Strategy.Canary == old(spec.Strategy.Canary)
+//@             && (old(spec.Strategy.ReconcileFrequency) != nil ==> spec.Strategy.ReconcileFrequency == old(spec.Strategy.ReconcileFrequency))
+//@             && unchanged(spec.Template.Spec) && spec.Template.ObjectMeta.Labels == old(spec.Template.ObjectMeta.Labels)
+//@             && spec.Template.ObjectMeta.Annotations == old(spec.Template.ObjectMeta.Annotations)
+//@   ensures [C16] documented-defaults: old(spec.Strategy.ReconcileFrequency) == nil ==> spec.Strategy.ReconcileFrequency.Duration == 10000000000
+//@   ensures [C16] idempotent: old(fullyDefaultedSpec(spec)) ==> unchanged(*spec)
+//@
+//@ func DefaultExtendedDaemonSet
+//@   requires dd != nil
+//@   requires defaultValidationMode == "auto" || defaultValidationMode == "manual"
+//@   modifies nothing
+//@   ensures [C16] recognised: result != nil && fresh(result) && IsDefaultedExtendedDaemonSet(result)
+//@
+//@ func ValidateExtendedDaemonSetSpec
+//@   pure
+//@   requires spec != nil
+//@   requires spec.Strategy.Canary != nil ==> IsDefaultedExtendedDaemonSetSpecStrategyCanary(spec.Strategy.Canary)
+//@   let c = spec.Strategy.Canary
+//@   ensures [C16] rejects-autofail-below-autopause: c != nil && *c.AutoFail.Enabled && *c.AutoPause.Enabled && *c.AutoFail.MaxRestarts < *c.AutoPause.MaxRestarts ==> result != nil
+//@   ensures [C16] rejects-timeout-not-above-duration: c != nil && *c.AutoFail.Enabled && c.AutoFail.CanaryTimeout != nil && c.Duration != nil
+//@             && c.AutoFail.CanaryTimeout.Duration <= c.Duration.Duration ==> result != nil
+//@   ensures [C16,C05] rejects-duration-in-manual-mode: c != nil && c.ValidationMode == "manual" && (c.Duration != nil || c.NoRestartsDuration != nil) ==> result != nil
+//@   ensures [C16] accepts-otherwise: c == nil ==> result == nil
